@@ -840,6 +840,96 @@ func c18membership(run *verifkit.Run, i int, rng *verifkit.Rand) {
 	}
 }
 
+// ---- family: one crash at a PRNG-chosen phase of an otherwise calm cluster -------------
+
+// c18crashPhase: 2..4 nodes started at staggered instants register without any
+// other fault and with immediate in-order delivery; one node crashes (silence,
+// no Unregister) at a millisecond-grained instant C, the others keep
+// re-registering. Membership has stopped changing at C and every registration
+// the crashed node published was delivered by then, so from C + PeerEntryTimeout
+// + one (largest) refresh interval on -- the bound the property names; the
+// unchanged code drops the entry at the first read later than last registration
+// + PeerEntryTimeout -- no live node may list it. The clock moves in 50..300 ms
+// steps and GetPeers() is read only from the bound on (before it only the
+// nodes' own messages touch the TTL map, as in production).
+func c18crashPhase(run *verifkit.Run, i int, rng *verifkit.Rand) {
+	t0 := time.Date(2024, 5, 1, 12, 0, 0, 0, time.UTC)
+	w := &c18world{run: run, rng: rng, clock: clockwork.NewFakeClockAt(t0), t0: t0, bus: newE7Bus(), lastUnreg: map[[2]int]bool{}}
+	nslots := rng.Range(2, 4)
+	w.slots = make([]*c18node, nslots)
+	for s := 0; s < nslots; s++ {
+		w.addrs = append(w.addrs, fmt.Sprintf("http://node-%c.refinery:8081", 'a'+s))
+	}
+	defer func() {
+		for _, n := range w.nodes {
+			w.closeDone(n)
+		}
+	}()
+	step := func(d time.Duration) {
+		w.advance(d)
+		w.bus.DeliverAll(nil, 0)
+	}
+	for s := 0; s < nslots; s++ {
+		w.start(s)
+		if w.aborted {
+			return
+		}
+		step(time.Duration(rng.Range(1, 3500)) * time.Millisecond) // staggered phases
+	}
+	// calm operation
+	for calm := time.Duration(rng.Range(6000, 25000)) * time.Millisecond; calm > 0; {
+		d := time.Duration(rng.Range(50, 500)) * time.Millisecond
+		step(d)
+		calm -= d
+	}
+	rounds := 1
+	if nslots >= 3 && rng.Chance(0.3) {
+		rounds = 2
+	}
+	ok := true
+	for r := 0; r < rounds && ok && !w.aborted; r++ {
+		step(time.Duration(rng.Range(1, 999)) * time.Millisecond)
+		live := w.live()
+		victim := live[rng.Intn(len(live))]
+		w.crash(victim)
+		crashAt := w.clock.Now()
+		bound := crashAt.Add(PeerEntryTimeout + c18MaxRefresh)
+		end := crashAt.Add(2 * (PeerEntryTimeout + c18MaxRefresh))
+		for w.clock.Now().Before(end) && ok {
+			d := time.Duration(rng.Range(50, 300)) * time.Millisecond
+			if now := w.clock.Now(); now.Before(bound) && now.Add(d).After(bound) {
+				d = bound.Sub(now) // land exactly on the bound once
+			}
+			step(d)
+			if w.clock.Now().Before(bound) {
+				continue
+			}
+			for _, n := range w.live() {
+				got, err := n.p.GetPeers()
+				if err != nil {
+					run.Inconclusive("harness: GetPeers: " + err.Error())
+					return
+				}
+				ok = w.compare("crash-phase", n, got, "GetPeers") && ok
+				run.Count("getpeers_checked_after_crash_bound", 1)
+			}
+		}
+	}
+	for _, n := range w.nodes {
+		if n.unsynced && ok {
+			run.Inconclusive("a node's refresh goroutine did not publish within the real-time bound; history not as scripted")
+		}
+	}
+	run.Count("crash_phase_cases", 1)
+	if len(w.live()) >= 1 {
+		// abstract: number of nodes, rounds, and the crash instant's phase within the victim-independent second
+		run.Nontrivial(fmt.Sprintf("crash-phase n=%d rounds=%d phase=%d", nslots, rounds, (w.ms()/250)%16))
+	}
+	if i < 1 {
+		run.Sample(map[string]any{"family": "crash-phase", "events": w.log, "addresses": w.addrs})
+	}
+}
+
 // ---- codec ---------------------------------------------------------------------------
 
 func c18String(rng *verifkit.Rand, kind string) string {
@@ -925,11 +1015,12 @@ func c18codec(run *verifkit.Run, i int, rng *verifkit.Rand) {
 func TestVerif_C18(t *testing.T) {
 	run := verifkit.Start(t, "C18", "membership")
 	defer run.Finish()
-	run.Rule("membership: seeded histories over 2..5 node addresses (IPv4 / bracketed IPv6 / host names) of real RedisPubsubPeers on one FakeClock over the E7 chaos pubsub: 12..45 steps of {start, graceful stop, crash, restart under a new instance id, hold a node's inbound messages}, address-resolution outages of a live node (its config yields an unparsable listen address / a missing interface) covering its next registration tick, per-node scripted Publish errors (probability 0/0.15/0.35/0.6 per call, plus outages of 2-4 consecutive calls) while faults are on, clock steps of 0.1..1 s (15% aimed at an entry's expiry instant +-1ns), per-step delivery of a random subset of the queued messages in random order with duplicates; refresh jitter per node chosen by the PRNG in [0,20%); then faults stop, backlog delivered in random order, clock advanced PeerEntryTimeout+max refresh interval with immediate delivery, GetPeers() of every live node compared with the live set, again at every step of a further 2x(PeerEntryTimeout+max refresh interval), then the list read by a change-callback consumer. Non-trivial = history with a graceful stop or crash and at least one out-of-order delivery; distinct = (event-kind sequence, live count, out-of-order/duplicate/late-register buckets). codec: marshal->unmarshal over generated address/id strings (realistic URLs and hex ids, empty, commas, leading R/U, control bytes, non-UTF8, long); non-trivial = a field is empty or contains a comma")
+	run.Rule("membership: seeded histories over 2..5 node addresses (IPv4 / bracketed IPv6 / host names) of real RedisPubsubPeers on one FakeClock over the E7 chaos pubsub: 12..45 steps of {start, graceful stop, crash, restart under a new instance id, hold a node's inbound messages}, address-resolution outages of a live node (its config yields an unparsable listen address / a missing interface) covering its next registration tick, per-node scripted Publish errors (probability 0/0.15/0.35/0.6 per call, plus outages of 2-4 consecutive calls) while faults are on, clock steps of 0.1..1 s (15% aimed at an entry's expiry instant +-1ns), per-step delivery of a random subset of the queued messages in random order with duplicates; refresh jitter per node chosen by the PRNG in [0,20%); then faults stop, backlog delivered in random order, clock advanced PeerEntryTimeout+max refresh interval with immediate delivery, GetPeers() of every live node compared with the live set, again at every step of a further 2x(PeerEntryTimeout+max refresh interval), then the list read by a change-callback consumer. Non-trivial = history with a graceful stop or crash and at least one out-of-order delivery; distinct = (event-kind sequence, live count, out-of-order/duplicate/late-register buckets). crash-phase: 2..4 nodes started at staggered instants, calm operation with immediate delivery, one node (in 30% two in sequence) crashed at a ms-grained instant C, clock stepped 50..300 ms, from C+PeerEntryTimeout+max refresh interval to twice that GetPeers() of every live node compared with the live set at every step. codec: marshal->unmarshal over generated address/id strings (realistic URLs and hex ids, empty, commas, leading R/U, control bytes, non-UTF8, long); non-trivial = a field is empty or contains a comma")
 	run.Assume("the go-redis transport is replaced by the E7 chaos pubsub (no Redis server in the sandbox); deliveries to one node are serialised")
 	run.Assume("clockwork.FakeClock is the only time source: the node's TTL map is moved onto it right after Start and the own entry re-stamped; the refresh jitter comes from the check's PRNG instead of math/rand")
 	run.Assume("live and publishing = started, Done not closed, not silenced; convergence is measured from the moment faults stop and the backlog has been delivered")
 
 	run.Cases("membership", run.N(300, 60000), func(i int, rng *verifkit.Rand) { c18membership(run, i, rng) })
+	run.Cases("crash-phase", run.N(200, 15000), func(i int, rng *verifkit.Rand) { c18crashPhase(run, i, rng) })
 	run.Cases("codec", run.N(4000, 400000), func(i int, rng *verifkit.Rand) { c18codec(run, i, rng) })
 }
